@@ -295,6 +295,14 @@ func init() {
 			{"compare", "consensus", "PraosChainSelector", "Compare"},
 			{"selectPreferred", "consensus", "PraosChainSelector", "selectPreferred"},
 			{"blocksInWindow", "consensus", "WindowedChainTip", "BlocksInWindow"},
+			{"windowMetricFor", "consensus", "PraosChainSelector", "windowMetricFor"},
+			{"compareDensityMetric", "consensus", "PraosChainSelector", "compareDensityMetric"},
+			{"compareWithDensityMetric", "consensus", "PraosChainSelector", "compareWithDensityMetric"},
+			{"compareWithDensity", "consensus", "PraosChainSelector", "CompareWithDensity"},
+			{"preferredWithDensity", "consensus", "PraosChainSelector", "PreferredWithDensity"},
+			{"preferred", "consensus", "PraosChainSelector", "Preferred"},
+			{"simpleDensity", "consensus", "SimpleChainTip", "Density"},
+			{"windowedDensity", "consensus", "WindowedChainTip", "Density"},
 		} {
 			l.pf("/-- top-level statements of `%s` (%s) -/\ndef %s : List String := %s\n", f[3], f[1], f[0], leanStrList(srcStmts(f[1], f[2], f[3])))
 		}
